@@ -202,14 +202,14 @@ func (h *Sources) Reset() {
 
 // Always returns a non-nil map, whether or not a history source is found.
 func (h *Sources) getHistoryLineChanges() map[int]*lineHistory {
-	history := h.Current()
-	if history == nil {
-		return map[int]*lineHistory{}
-	}
+	// Get the state changes of all history lines for the current
+	// history source. Without any source, the changes of the line
+	// being edited are still kept (under no name), or undo is lost.
+	var source string
 
-	// Get the state changes of all history lines
-	// for the current history source.
-	source := h.names[h.sourcePos]
+	if h.Current() != nil {
+		source = h.names[h.sourcePos]
+	}
 
 	hist := h.lines[source]
 	if hist == nil {
